@@ -240,7 +240,7 @@ func tgValue(r *rand.Rand, v reflect.Value, depth int, nilRate int, special bool
 	case reflect.TypeOf(stdjson.Number("")):
 		l := []string{"0", "-12", "1.5e3", "123456789012345678901234567890", "1E-2", ""}
 		if special {
-			l = append(l, "abc", "1.", "+1", "0x10", "1e", "--1", "1 2", "NaN")
+			l = append(l, "abc", "1.", "+1", "0x10", "1e", "--1", "1 2", "NaN", "01", "-01", "00", "007", "1e+", ".5", "1.5.5", "Infinity")
 		}
 		v.SetString(l[r.Intn(len(l))])
 		return
